@@ -1918,7 +1918,7 @@ impl Prop for C08 {
         run(c, o)
     }
     fn rule() -> &'static str {
-        "proptest + enumerated cases, three families. (a) Api: 1-5 names from a static pool (binary names next to the near misses bin, -bin, x-bin-, x-binx, xbin, x-bi, x-bin-bin and reserved names) and 1-25 operations insert/append/insert_bin/append_bin (typed key, &key, &'static str; binary values built from bytes or from padded base64 text), remove/remove_bin, *get_mut=v, entry/entry_bin with all nine entry operations on occupied and vacant entries, clear, into_headers/from_headers, with keys given as MetadataKey, &MetadataKey, &str, String, &String in lower/UPPER/suffix-UPPER/Title/Prefix spellings and 20% accessors of the other kind; reference = ordered multimap with http::HeaderMap semantics; after every step len/keys_len/is_empty, iter/keys/values/iter_mut/values_mut (variant kind must equal the stored name's kind), into_headers (independent base64 decode), and get/get_mut/get_all/contains_key of both kinds for every name of the case in every key form and spelling are compared with the model; for every binary value padded-vs-unpadded equality, hash and to_bytes. A non-lower-case string key may find its own-kind entry or nothing, never an entry of the other kind. (b) Send: caller metadata through the generated client (4 shapes, optionally through an interceptor) into a recording transport; handler initial metadata and error-status metadata (returned or as stream item) through the generated server called in-process: every non-reserved entry under its name with the same ordered values (binary: independent base64 decode), te=trailers, content-type=application/grpc, grpc-status exact, and no value the user attached under a reserved name appears under that name. (c) Recv: headers/trailers/trailers-only status with padded and unpadded base64, ASCII values and repeated names delivered to the generated client (Response::metadata, Streaming::trailers, Status::metadata) and to the generated server (Request::metadata in the handler, optionally behind an interceptor), read back through get/get_bin/get_all/get_all_bin/iter. Non-trivial: >=1 binary value with len mod 3 != 0, or a repeated key, or a reserved name present; distinct = distinct serialised case. Also: a successful reply sent in one block (grpc-status 0 with metadata in the HEADERS) to streaming calls; initial metadata of a unary call that fails in the trailers must be found in the Status next to the trailer metadata. Error statuses on the receive paths carry grpc-status-details-bin, which must come out of Status::details()."
+        "proptest + enumerated cases, three families. (a) Api: 1-5 names from a static pool (binary names next to the near misses bin, -bin, x-bin-, x-binx, xbin, x-bi, x-bin-bin and reserved names) and 1-25 operations insert/append/insert_bin/append_bin (typed key, &key, &'static str; binary values built from bytes or from padded base64 text), remove/remove_bin, *get_mut=v, entry/entry_bin with all nine entry operations on occupied and vacant entries, clear, into_headers/from_headers, with keys given as MetadataKey, &MetadataKey, &str, String, &String in lower/UPPER/suffix-UPPER/Title/Prefix spellings and 20% accessors of the other kind; reference = ordered multimap with http::HeaderMap semantics; after every step len/keys_len/is_empty, iter/keys/values/iter_mut/values_mut (variant kind must equal the stored name's kind), into_headers (independent base64 decode), and get/get_mut/get_all/contains_key of both kinds for every name of the case in every key form and spelling are compared with the model; for every binary value padded-vs-unpadded equality, hash and to_bytes. A non-lower-case string key may find its own-kind entry or nothing, never an entry of the other kind. (b) Send: caller metadata through the generated client (4 shapes, optionally through an interceptor) into a recording transport; handler initial metadata and error-status metadata (returned or as stream item) through the generated server called in-process: every non-reserved entry under its name with the same ordered values (binary: independent base64 decode), te=trailers, content-type=application/grpc, grpc-status exact, and no value the user attached under a reserved name appears under that name. (c) Recv: headers/trailers/trailers-only status with padded and unpadded base64, ASCII values and repeated names delivered to the generated client (Response::metadata, Streaming::trailers, Status::metadata) and to the generated server (Request::metadata in the handler, optionally behind an interceptor), read back through get/get_bin/get_all/get_all_bin/iter. Non-trivial: >=1 binary value with len mod 3 != 0, or a repeated key, or a reserved name present; distinct = distinct serialised case. Also: a successful reply sent in one block (grpc-status 0 with metadata in the HEADERS) to streaming calls; initial metadata of a unary call that fails in the trailers must be found in the Status next to the trailer metadata. Error statuses on the receive paths carry grpc-status-details-bin, which must come out of Status::details(). OverChannel family: generated client (optionally with an interceptor that sets user-agent) over a real Channel on the in-memory pipe to a real server; Endpoint::user_agent set or not; ASCII values built from integers (0, small, MIN/MAX) and a binary value built from a Bytes buffer (some of them base64-looking): the handler sees tonic's own user-agent token, the decimal texts in order and the buffer's bytes."
     }
     fn assumptions() -> Vec<String> {
         vec![
